@@ -12,6 +12,7 @@ HERE = os.path.dirname(os.path.abspath(__file__))
 COQ_FILES = ["PIP/PipSpec.v", "PIP/PipTree.v", "PIP/PipRef.v", "PIP/PipCuts.v", "PIP/PipCert.v"]
 FUEL = 64
 MAX_DEATHS = 12          # timeouts per batch after which the rest of the batch is not run
+MAX_LONG_RETRIES = 3     # per batch; further cases over the short limit are reported as timeouts (a healthy tree has ~1 per 1000)
 LONG_TMO = 20            # CPU seconds after which a solve is reported as not returning
 MAX_VIOLATIONS = 6       # enough to show the property is broken; the run stops attributing after that
 BIGVALS = [1000003, 1000004, 1000005, 1000006, 1000007, 1000000007]
@@ -25,17 +26,12 @@ def build_tools(chk):
 
 
 # Library variants carrying a candidate fix (corpus/C07/<file>.diff applied to a copy of src/PIP_Tree.cc), used
-# only to attribute a failure to the code a fix changes.  The row_sign and else-branch defects were repaired in /repo
-# (481d251, 7d069b5): a recurrence of either is an ordinary VIOLATION.  Still open: the third site of the
-# "non-positive taken for negative" defect (fix-8); remove the entry when that fix is committed.
-VARIANTS = {"nonstrict_negative_row": ["fix-8-unfeasible-needs-strictly-negative-row.diff"],
-            "incremental_artificial_parameters": ["fix-4-renumber-artificial-parameters.diff",
-                                                  "fix-5-artificial-parameter-definitions-in-context.diff"],
-            "incremental_all": ["fix-4-renumber-artificial-parameters.diff",
-                                "fix-5-artificial-parameter-definitions-in-context.diff",
-                                "fix-6-decision-node-keeps-test.diff"]}
-FRESH_VARIANTS = ["nonstrict_negative_row"]
-INCREMENTAL_VARIANTS = ["incremental_artificial_parameters", "incremental_all"]
+# only to attribute a failure to the code a fix changes.  Empty: every defect that was attributed this way is repaired in /repo
+# (481d251, 7d069b5, 3e9e3d9, ff3b439, 8558018, 88fe9bb); a recurrence of any of them, and ANY incremental-only failure that is
+# neither the big-parameter nor the strategy-dependent non-termination finding, is an ordinary VIOLATION.
+VARIANTS = {}
+FRESH_VARIANTS = []
+INCREMENTAL_VARIANTS = []
 
 
 def private_harness(variant=None):
@@ -199,15 +195,15 @@ def run_judge(judge, lines, timeout, per_record=30):
 # ------------------------------------------------------------------------------------------------
 # evaluation of a batch of histories
 
-def evaluate(exe, judge, cases, bound, tmo=4, fuel=FUEL, judge_timeout=1500, per_record=30):
+def evaluate(exe, judge, cases, bound, tmo=4, fuel=FUEL, judge_timeout=1500, per_record=30, retry_long=True):
     """cases: list of (cid, ops). Returns list of step verdicts:
        dict(cid, step, ops, snap, kind=None|<failure kind>, detail, judge=<json or None>)."""
     hres = run_harness(exe, cases, tmo)
     # a case that exceeded the (short) CPU limit is run again, alone, with a long one: only a run that does not
     # return within LONG_TMO CPU seconds is reported as "does not return"
-    if tmo < LONG_TMO:
+    if retry_long and tmo < LONG_TMO:
         slow = [(cid, ops) for cid, ops in cases if any(st["status"] == "TIMEOUT" for st in hres.get(cid, []))]
-        for cid, ops in slow[:MAX_DEATHS]:
+        for cid, ops in slow[:MAX_LONG_RETRIES]:
             hres[cid] = run_harness(exe, [(cid, ops)], LONG_TMO)[cid]
     lines = []; meta = {}
     verdicts = []
@@ -387,7 +383,7 @@ def attribute(v, T, bound):
                             ops2 = [(["ctl", cut] if (o[0] == "ctl" and o[1] < 3) else (["ctl", piv] if o[0] == "ctl" else o)) for o in v["ops"]]
                             if ops2 == v["ops"]:
                                 continue
-                            pv = [w for w in evaluate(T.exe, T.judge, [("alt", ops2)], bound, tmo=LONG_TMO) if w["step"] == v["step"]]
+                            pv = [w for w in evaluate(T.exe, T.judge, [("alt", ops2)], bound, retry_long=False) if w["step"] == v["step"]]
                             if pv and pv[0]["kind"] != "timeout":
                                 other = True
                     info["terminates_under_another_strategy_setting"] = other
@@ -407,7 +403,7 @@ def attribute(v, T, bound):
                 if [cut, piv] == list(cur["snap"]["ctl"]) or other:
                     continue
                 sn = dict(cur["snap"]); sn["ctl"] = [cut, piv]
-                pv = evaluate(T.exe, T.judge, [("alt", fresh_case(sn))], bound, tmo=LONG_TMO)[0]
+                pv = evaluate(T.exe, T.judge, [("alt", fresh_case(sn))], bound, retry_long=False)[0]
                 if pv["kind"] != "timeout":
                     other = True
         info["terminates_under_another_strategy_setting"] = other
@@ -564,8 +560,8 @@ def run(chk):
         process(chk, T, vs, bound, stats)
         chk.log("corpus: %d cases, %d failing steps" % (len(cases), stats["failing_steps"]))
     # ---- generated histories ------------------------------------------------------------------
-    total = 2000 if chk.quick else 14000
-    batch = 500 if chk.quick else 1000
+    total = 3500 if chk.quick else 14000
+    batch = 700 if chk.quick else 1000
     budget_s = 150 if chk.quick else 1500
     done = 0; b = 0
     t_gen = time.time()      # the budget covers generation and judging, not the wait for the shared Coq lock
